@@ -1,12 +1,16 @@
 ----------------------------- MODULE Trace_C19 -----------------------------
 (* Decoration-time rows of C19: a positional-only, an unannotated or an uncalled `resource` marker is rejected when @inject
-   is applied (TypeError); valid signatures are accepted. Cases: [id, row, obs].                                   *)
+   is applied (TypeError); valid signatures are accepted. Cases: [id, kind, row, obs].                                   *)
 EXTENDS Naturals, TLC, TLCExt, Json, IOUtils, Sequences
 Cases == JsonDeserialize(IOEnv.TRACE_FILE)
 VARIABLES i
 Init == i \in 1..Len(Cases)
 Next == FALSE /\ UNCHANGED i
 Expected(row) == IF row \in {"positional-only", "unannotated", "uncalled-marker"} THEN "TypeError" ELSE "ok"
-Report == LET c == Cases[i] w == IF c.obs = Expected(c.row) THEN "" ELSE "decoration-of-" \o c.row \o "-gave-" \o c.obs IN
+\* kind "differential": a decorated call and the explicit lookup made in the same context and state (a matching factory that itself
+\* raises, e.g. ResourceNotFound for something it depends on) have to end the same way: obs = "same"
+Report == LET c == Cases[i]
+              w == IF c.kind = "differential" THEN (IF c.obs = "same" THEN "" ELSE "decorated-call-and-explicit-lookup-end-differently:" \o c.row \o ":" \o c.obs)
+                   ELSE IF c.obs = Expected(c.row) THEN "" ELSE "decoration-of-" \o c.row \o "-gave-" \o c.obs IN
           PrintT(ToJson([end |-> c.id, ok |-> (w = ""), step |-> 1, why |-> w, hits |-> <<>>]))
 =============================================================================
